@@ -202,4 +202,147 @@ Proof.
   pose proof (min_period_le rf _ a (a + 1) a H). lia.
 Qed.
 
+(* ------------------------------------------------------------------ B. the shifted copy and the change series *)
+Definition nval (neutral : option Z) : V := match neutral with Some z => ofZ A z | None => miss A end.
+
+Lemma span_of_some (x : series) st : s_start x = Some st ->
+  span_of A x = zrange st (st + Z.of_nat (length (s_data x)) - 1 + 1).
+Proof. intros Hst. unfold span_of, s_end. rewrite Hst. reflexivity. Qed.
+
+Lemma shift_rf_soy (rf : Z -> option Z) by_ neutral (x : series) st :
+  by_ = Soy \/ by_ = Eopy -> s_start x = Some st ->
+  series_shift_rf A rf by_ neutral x
+  = build A (s_freq x) (s_nv x) st (st + Z.of_nat (length (s_data x)) - 1)
+      (fun u => row_at A x (match rf u with Some r => r | None => u end)).
+Proof.
+  intros Hby Hst. unfold series_shift_rf, build. rewrite (span_of_some x st Hst).
+  destruct Hby as [-> | ->]; rewrite Hst; unfold get_data; rewrite map_map; reflexivity.
+Qed.
+
+Lemma shift_rf_tty_WF rf neutral (x : series) : WF A x ->
+  WF A (series_shift_rf A rf Tty neutral x) /\ s_nv (series_shift_rf A rf Tty neutral x) = s_nv x.
+Proof.
+  intros Hwf. unfold series_shift_rf. split.
+  - apply set_data_WF; [assumption|]. apply set_data_WF; assumption.
+  - rewrite !set_data_nv. reflexivity.
+Qed.
+
+Lemma shift_rf_tty_row rf neutral (x : series) st t :
+  let en := st + Z.of_nat (length (s_data x)) - 1 in
+  WF A x -> s_start x = Some st -> st <= t <= en ->
+  row_at A (series_shift_rf A rf Tty neutral x) t
+  = match rf t with Some r => row_at A x r | None => bcast_row A (s_nv x) [nval neutral] end.
+Proof.
+  intros en Hwf Hst Ht. unfold series_shift_rf. rewrite (span_of_some x st Hst). fold en.
+  set (sp := zrange st (en + 1)).
+  assert (Hin : In t sp) by (apply In_zrange; lia).
+  set (wt := filter (fun t => match rf t with Some _ => true | None => false end) sp).
+  set (np := filter (fun t => match rf t with Some _ => false | None => true end) sp).
+  set (refd := fun u => match rf u with Some r => r | None => u end).
+  assert (W1 : WF A (set_data A (s_freq x) x wt (get_data A x (map refd wt)) None)) by (now apply set_data_WF).
+  rewrite row_at_set_data by (assumption || exact W1). rewrite set_data_nv.
+  destruct (rf t) as [r0|] eqn:E.
+  - rewrite last_assoc_notin by (subst np; rewrite filter_In, E; intros [_ H]; discriminate H).
+    rewrite row_at_set_data by assumption. unfold get_data. rewrite map_map.
+    rewrite last_assoc_map with (g := fun u => row_at A x (refd u)) by (subst wt; rewrite filter_In, E; split; [assumption|reflexivity]).
+    unfold refd. rewrite E. apply bcast_row_id. now apply row_at_length.
+  - rewrite last_assoc_map with (g := fun _ : Z => [nval neutral]) by (subst np; rewrite filter_In, E; split; [assumption|reflexivity]).
+    reflexivity.
+Qed.
+
+Lemma kw_ref_soy_not_none fr by_ t : by_ = Soy \/ by_ = Eopy -> kw_ref fr by_ t <> Some None.
+Proof.
+  intros [-> | ->]; unfold kw_ref; destruct (fr =? freq_DAILY); try discriminate.
+  - destruct (gen_daily_create_soy t); discriminate.
+  - destruct (gen_daily_create_eopy t); discriminate.
+Qed.
+
+(* the copy shifted by [by_]: the row of its reference period, the neutral value where create_tty returns None *)
+Lemma shift_kw_spec by_ neutral (x : series) st :
+  let en := st + Z.of_nat (length (s_data x)) - 1 in
+  WF A x -> s_start x = Some st ->
+  WF A (series_shift_kw A by_ neutral x) /\ s_nv (series_shift_kw A by_ neutral x) = s_nv x /\
+  forall t, st <= t <= en ->
+    match kw_ref (s_freq x) by_ t with
+    | Some (Some r) => row_at A (series_shift_kw A by_ neutral x) t = row_at A x r
+    | Some None => row_at A (series_shift_kw A by_ neutral x) t = bcast_row A (s_nv x) [nval neutral]
+    | None => True
+    end.
+Proof.
+  intros en Hwf Hst. unfold series_shift_kw. destruct by_ as [k| | | |].
+  - cbn [series_shift_rf]. split; [now apply shift_by_WF|]. split; [unfold shift_by; rewrite Hst; reflexivity|].
+    intros t Ht. rewrite row_at_shift. unfold kw_ref. destruct (s_freq x =? freq_DAILY); reflexivity.
+  - cbn [series_shift_rf]. split; [now apply shift_by_WF|]. split; [unfold shift_by; rewrite Hst; reflexivity|].
+    intros t Ht. rewrite row_at_shift. unfold kw_ref. destruct (s_freq x =? freq_DAILY); [reflexivity|].
+    cbn [period_shift]. unfold p_yoy. f_equal; lia.
+  - rewrite (shift_rf_soy _ Soy neutral x st) by auto.
+    assert (Hlen : forall u, length (row_at A x (match kw_ref_tot (s_freq x) Soy u with Some r => r | None => u end)) = s_nv x)
+      by (intros; now apply row_at_length).
+    split; [now apply build_WF|]. split.
+    { unfold build, trim; simpl. destruct (drop_leading A _) as [n r1]. destruct (rev (snd (drop_leading A (rev r1)))); reflexivity. }
+    intros t Ht. destruct (kw_ref (s_freq x) Soy t) as [[r|]|] eqn:E; [| |exact I].
+    + rewrite row_at_build by assumption. fold en.
+      replace ((st <=? t) && (t <=? en)) with true by (symmetry; apply andb_true_iff; split; apply Z.leb_le; lia).
+      unfold kw_ref_tot. rewrite E. reflexivity.
+    + exfalso. now apply (kw_ref_soy_not_none (s_freq x) Soy t (or_introl eq_refl)).
+  - rewrite (shift_rf_soy _ Eopy neutral x st) by auto.
+    assert (Hlen : forall u, length (row_at A x (match kw_ref_tot (s_freq x) Eopy u with Some r => r | None => u end)) = s_nv x)
+      by (intros; now apply row_at_length).
+    split; [now apply build_WF|]. split.
+    { unfold build, trim; simpl. destruct (drop_leading A _) as [n r1]. destruct (rev (snd (drop_leading A (rev r1)))); reflexivity. }
+    intros t Ht. destruct (kw_ref (s_freq x) Eopy t) as [[r|]|] eqn:E; [| |exact I].
+    + rewrite row_at_build by assumption. fold en.
+      replace ((st <=? t) && (t <=? en)) with true by (symmetry; apply andb_true_iff; split; apply Z.leb_le; lia).
+      unfold kw_ref_tot. rewrite E. reflexivity.
+    + exfalso. now apply (kw_ref_soy_not_none (s_freq x) Eopy t (or_intror eq_refl)).
+  - destruct (shift_rf_tty_WF (kw_ref_tot (s_freq x) Tty) neutral x Hwf) as [W N].
+    split; [exact W|]. split; [exact N|].
+    intros t Ht. rewrite (shift_rf_tty_row _ neutral x st t Hwf Hst Ht). unfold kw_ref_tot.
+    destruct (kw_ref (s_freq x) Tty t) as [[r|]|]; [reflexivity|reflexivity|exact I].
+Qed.
+
+Lemma omin_le a o lo : omin (Some a) o = Some lo -> lo <= a.
+Proof. destruct o; simpl; intros H; inversion H; lia. Qed.
+Lemma omax_ge a o hi : omax (Some a) o = Some hi -> a <= hi.
+Proof. destruct o; simpl; intros H; inversion H; lia. Qed.
+
+Lemma kw_raises_false fr by_ sp t : kw_raises fr by_ sp = false -> In t sp -> kw_ref fr by_ t <> None.
+Proof.
+  intros H Hin E. unfold kw_raises in H.
+  assert (existsb (fun t => match kw_ref fr by_ t with None => true | Some _ => false end) sp = true)
+    by (apply existsb_exists; exists t; split; [assumption|now rewrite E]).
+  congruence.
+Qed.
+
+(* the change series: f(x_t, x_ref(t)) period by period, f(x_t, neutral) where there is no reference *)
+Theorem change_kw_rows (f : V -> V -> V) by_ neutral (x c : series) st :
+  let en := st + Z.of_nat (length (s_data x)) - 1 in
+  WF A x -> s_start x = Some st ->
+  temporal_change_kw A f by_ neutral x = Ok c ->
+  WF A c /\ s_nv c = s_nv x /\
+  forall t, st <= t <= en ->
+    match kw_ref (s_freq x) by_ t with
+    | Some (Some r) => row_at A c t = zip_bcast A f (row_at A x t) (row_at A x r)
+    | Some None => row_at A c t = zip_bcast A f (row_at A x t) (bcast_row A (s_nv x) [nval neutral])
+    | None => False
+    end.
+Proof.
+  intros en Hwf Hst Hc. unfold temporal_change_kw in Hc.
+  destruct (shift_invalid by_); [discriminate|].
+  destruct (kw_raises (s_freq x) by_ (span_of A x)) eqn:Hr; [discriminate|].
+  destruct (shift_kw_spec by_ neutral x st Hwf Hst) as (W & N & Hrow).
+  assert (Hne0 : s_start x = None -> s_start (series_shift_kw A by_ neutral x) = None -> False) by (rewrite Hst; discriminate).
+  destruct (row_at_binop A miss_law f x _ c Hwf W (eq_sym N) Hne0 Hc) as (lo & hi & Hlo & Hhi & Hwfc & Hnvc & Hrowc).
+  rewrite Hst in Hlo. apply omin_le in Hlo.
+  assert (Hen : s_end A x = Some en) by (unfold s_end; rewrite Hst; reflexivity).
+  rewrite Hen in Hhi. apply omax_ge in Hhi.
+  split; [exact Hwfc|]. split; [exact Hnvc|].
+  intros t Ht. specialize (Hrow t Ht).
+  assert (Hnn : kw_ref (s_freq x) by_ t <> None).
+  { apply (kw_raises_false _ _ _ _ Hr). rewrite (span_of_some x st Hst). apply In_zrange. fold en. lia. }
+  rewrite Hrowc.
+  replace ((lo <=? t) && (t <=? hi)) with true by (symmetry; apply andb_true_iff; split; apply Z.leb_le; lia).
+  destruct (kw_ref (s_freq x) by_ t) as [[r|]|]; [now rewrite Hrow|now rewrite Hrow|now apply Hnn].
+Qed.
+
 End LiftKw.
